@@ -6,7 +6,7 @@ use std::sync::Mutex;
 use vharness::gen::{all_upto2, tuples, SHARP};
 use vharness::objjson::{doc_from_json, doc_to_json, obj_from_json, obj_to_json};
 use vharness::rt::{self, check_doc, check_items, check_single, map_tree, paren_depth, walk};
-use vharness::{cmp, util, Mode, Run};
+use vharness::{cmp, docgen, util, Mode, Run};
 
 const BUILD: &str = if cfg!(feature = "par") { "default" } else { "sequential" };
 
@@ -134,39 +134,6 @@ fn nontrivial_bytes(b: &[u8]) -> bool {
 // ---------------------------------------------------------------------------------------------
 // part 1: byte content of names, strings, keys, stream bodies
 
-fn carrier_items(b: &[u8]) -> Vec<Object> {
-    let mut out = Vec::with_capacity(9);
-    let ctx = |c: Object| -> Object {
-        let mut d = Dictionary::new();
-        d.set("K", c.clone());
-        d.set("L", Object::Array(vec![c.clone()]));
-        Object::Array(vec![c.clone(), c, Object::Dictionary(d)])
-    };
-    for c in [
-        Object::Name(b.to_vec()),
-        Object::String(b.to_vec(), StringFormat::Literal),
-        Object::String(b.to_vec(), StringFormat::Hexadecimal),
-    ] {
-        out.push(c.clone());
-        out.push(ctx(c));
-    }
-    // dictionary key
-    let mut d = Dictionary::new();
-    d.set(b.to_vec(), Object::Integer(1));
-    let mut k2 = b.to_vec();
-    k2.push(b'Z');
-    d.set(k2, Object::Name(b"v".to_vec()));
-    let mut d2 = Dictionary::new();
-    d2.set(b.to_vec(), Object::Null);
-    out.push(Object::Array(vec![Object::Dictionary(d2)]));
-    out.push(Object::Dictionary(d));
-    // stream body (and the same bytes as a key of the stream dictionary)
-    let mut sd = Dictionary::new();
-    sd.set(b.to_vec(), Object::Boolean(true));
-    out.push(Object::Stream(Stream::new(sd, b.to_vec())));
-    out
-}
-
 fn carriers_over(run: &Run, part: &str, list: &[Vec<u8>]) {
     let chunk = 400;
     let n = list.len().div_ceil(chunk);
@@ -175,7 +142,7 @@ fn carriers_over(run: &Run, part: &str, list: &[Vec<u8>]) {
         let hi = (lo + chunk).min(list.len());
         let mut items = Vec::with_capacity((hi - lo) * 9);
         for b in &list[lo..hi] {
-            items.extend(carrier_items(b));
+            items.extend(docgen::carrier_items(b));
         }
         run_batch(run, part, &items);
     });
@@ -208,33 +175,7 @@ fn carriers_slice(run: &Run, len: usize, m: u64) {
 
 /// parametric families at the code's own limits.
 fn families(run: &Run) {
-    let mut items = vec![];
-    for n in [1usize, 2, 99, 100, 101, 102, 1000] {
-        let mut s = vec![b'('; n];
-        s.push(b'x');
-        s.extend(vec![b')'; n]);
-        items.push(Object::String(s.clone(), StringFormat::Literal));
-        // unbalanced prefixes/suffixes are escaped by the writer
-        items.push(Object::String(vec![b'('; n], StringFormat::Literal));
-        items.push(Object::String(vec![b')'; n], StringFormat::Literal));
-        let mut t = vec![b')'; n];
-        t.extend(vec![b'('; n]);
-        items.push(Object::String(t, StringFormat::Literal));
-    }
-    for body in [
-        &b""[..], b"\r", b"\n", b"\r\n", b"x\r", b"x\n", b"x\r\n", b"\nendstream", b"endstream", b"endstream\nendobj\n",
-        b"a\nendstream\nendobj\n2 0 obj\nnull\nendobj", b"stream\r\nX", b"%PDF-1.4\n%%EOF", b"\x00\xff\x00",
-    ] {
-        items.push(Object::Stream(Stream::new(Dictionary::new(), body.to_vec())));
-    }
-    // long strings / names
-    for n in [255usize, 256, 1000, 65536] {
-        items.push(Object::String(vec![b'\\'; n], StringFormat::Literal));
-        items.push(Object::Name(vec![b'#'; n.min(1000)]));
-        items.push(Object::String((0..n).map(|i| (i % 256) as u8).collect(), StringFormat::Literal));
-        items.push(Object::String((0..n).map(|i| (i % 256) as u8).collect(), StringFormat::Hexadecimal));
-        items.push(Object::Stream(Stream::new(Dictionary::new(), (0..n).map(|i| (i * 7 % 256) as u8).collect())));
-    }
+    let items = docgen::family_items();
     run.nontrivial(items.len() as u64);
     run.add("family_items", items.len() as u64);
     run_batch(run, "families", &items);
@@ -243,83 +184,9 @@ fn families(run: &Run) {
 // ---------------------------------------------------------------------------------------------
 // part 2: token adjacency
 
-fn atoms() -> Vec<Object> {
-    vec![
-        Object::Null,
-        Object::Boolean(true),
-        Object::Boolean(false),
-        Object::Integer(0),
-        Object::Integer(-1),
-        Object::Integer(i64::MIN),
-        Object::Integer(i64::MAX),
-        Object::Real(0.5),
-        Object::Real(-0.0),
-        Object::Real(1e10),
-        Object::Real(1e-7),
-        Object::Real(f32::MAX),
-        Object::Name(vec![]),
-        Object::Name(b"R".to_vec()),
-        Object::Name(b"true".to_vec()),
-        Object::Name(b"obj".to_vec()),
-        Object::String(vec![], StringFormat::Literal),
-        Object::String(vec![], StringFormat::Hexadecimal),
-        Object::String(b"a".to_vec(), StringFormat::Literal),
-        Object::Array(vec![]),
-        Object::Dictionary(Dictionary::new()),
-        Object::Reference((1, 0)),
-        Object::Reference((u32::MAX, 65535)),
-        Object::Real(-12345.678),
-    ]
-}
-
 fn adjacency(run: &Run, reduced: bool) {
-    let a = atoms();
-    let n = a.len();
-    let mut items: Vec<Object> = vec![Object::Array(vec![])];
-    for x in &a {
-        items.push(x.clone());
-        items.push(Object::Array(vec![x.clone()]));
-        // as a stream dictionary value
-        let mut d = Dictionary::new();
-        d.set("V", x.clone());
-        items.push(Object::Stream(Stream::new(d, b"abc".to_vec())));
-    }
-    for x in &a {
-        for y in &a {
-            items.push(Object::Array(vec![x.clone(), y.clone()]));
-        }
-    }
-    if !reduced {
-        for x in &a {
-            for y in &a {
-                for z in &a {
-                    items.push(Object::Array(vec![x.clone(), y.clone(), z.clone()]));
-                }
-            }
-        }
-    }
-    // dictionaries with <= 2 entries: key menu x value menu
-    let keys: [&[u8]; 5] = [b"A", b"", b"Length", b"K#", b"true"];
-    for k in keys {
-        for v in &a {
-            let mut d = Dictionary::new();
-            d.set(k.to_vec(), v.clone());
-            items.push(Object::Dictionary(d));
-        }
-    }
-    let vstep = if reduced { 3 } else { 1 };
-    for (ki, k1) in keys.iter().enumerate() {
-        for k2 in keys.iter().skip(ki + 1) {
-            for v1 in a.iter().step_by(vstep) {
-                for v2 in &a {
-                    let mut d = Dictionary::new();
-                    d.set(k1.to_vec(), v1.clone());
-                    d.set(k2.to_vec(), v2.clone());
-                    items.push(Object::Dictionary(d));
-                }
-            }
-        }
-    }
+    let items = docgen::adjacency_items(reduced);
+    let n = docgen::atoms().len();
     run.sample(json!({"part": "adjacency", "item": obj_to_json(&items[items.len() / 2]), "atoms": n}));
     run.nontrivial(items.len() as u64 - 1 - n as u64);
     run.add("adjacency_items", items.len() as u64);
@@ -334,83 +201,8 @@ fn adjacency(run: &Run, reduced: bool) {
 // ---------------------------------------------------------------------------------------------
 // part 2b: all object trees with <= 4 nodes, depth <= 3
 
-fn leaves() -> Vec<Object> {
-    vec![
-        Object::Null,
-        Object::Boolean(true),
-        Object::Integer(-7),
-        Object::Real(2.5),
-        Object::Name(b"N m".to_vec()),
-        Object::String(b"(s\\".to_vec(), StringFormat::Literal),
-        Object::String(b"\x00\xff".to_vec(), StringFormat::Hexadecimal),
-        Object::Reference((3, 1)),
-        Object::Array(vec![]),
-        Object::Dictionary(Dictionary::new()),
-    ]
-}
-
-fn compositions(n: usize) -> Vec<Vec<usize>> {
-    if n == 0 {
-        return vec![vec![]];
-    }
-    let mut out = vec![];
-    for first in 1..=n {
-        for mut rest in compositions(n - first) {
-            let mut v = vec![first];
-            v.append(&mut rest);
-            out.push(v);
-        }
-    }
-    out
-}
-
-fn gen_trees(nodes: usize, depth: usize) -> Vec<Object> {
-    if nodes == 1 {
-        return leaves();
-    }
-    if depth <= 1 {
-        return vec![];
-    }
-    let mut out = vec![];
-    for comp in compositions(nodes - 1) {
-        let mut lists: Vec<Vec<Object>> = vec![vec![]];
-        for part in &comp {
-            let subs = gen_trees(*part, depth - 1);
-            let mut next = Vec::with_capacity(lists.len() * subs.len());
-            for l in &lists {
-                for s in &subs {
-                    let mut l2 = l.clone();
-                    l2.push(s.clone());
-                    next.push(l2);
-                }
-            }
-            lists = next;
-        }
-        for children in lists {
-            out.push(Object::Array(children.clone()));
-            let mut d = Dictionary::new();
-            for (i, c) in children.into_iter().enumerate() {
-                d.set(format!("K{}", i).into_bytes(), c);
-            }
-            out.push(Object::Dictionary(d));
-        }
-    }
-    out
-}
-
 fn trees(run: &Run) {
-    let mut items = vec![];
-    for n in 1..=4 {
-        items.extend(gen_trees(n, 3));
-    }
-    // the same trees as stream dictionaries (streams only at top level)
-    let mut streams = vec![];
-    for t in &items {
-        if let Object::Dictionary(d) = t {
-            streams.push(Object::Stream(Stream::new(d.clone(), b"q\nQ".to_vec())));
-        }
-    }
-    items.extend(streams);
+    let items = docgen::tree_items();
     run.sample(json!({"part": "trees", "item": obj_to_json(&items[items.len() / 2]), "count": items.len()}));
     run.nontrivial(items.len() as u64 - 10);
     run.add("tree_items", items.len() as u64);
@@ -529,84 +321,8 @@ fn check_real_block_one(run: &Run, bits: &[u32], table: bool) {
 // ---------------------------------------------------------------------------------------------
 // part 4: identifiers and file-level fields
 
-fn subsets_upto(n: u32, k: usize) -> Vec<Vec<u32>> {
-    let mut out = vec![];
-    for mask in 0u32..(1 << n) {
-        if mask.count_ones() as usize <= k && mask != 0 {
-            out.push((0..n).filter(|i| mask & (1 << i) != 0).map(|i| i + 1).collect());
-        }
-    }
-    out
-}
-
 fn file_level(run: &Run) {
-    let mut docs: Vec<(Document, String)> = vec![];
-    let mut sets = subsets_upto(6, 4);
-    sets.push(vec![1, 70000, 3_000_000]);
-    sets.push(vec![65535, 65536, 65537]);
-    sets.push(vec![255, 256, 16777216 / 8]);
-    for s in &sets {
-        for gp in 0..4 {
-            for extra in [0u32, 3] {
-                let mut doc = Document::with_version("1.7");
-                for (i, id) in s.iter().enumerate() {
-                    let g: u16 = match gp {
-                        0 => 0,
-                        1 => 1,
-                        2 => 65535,
-                        _ => [0u16, 1, 65535][i % 3],
-                    };
-                    let mut d = Dictionary::new();
-                    d.set("Tag", Object::Integer(*id as i64));
-                    d.set("Next", Object::Reference((s[(i + 1) % s.len()], g)));
-                    if i % 2 == 1 {
-                        doc.objects.insert((*id, g), Object::Stream(Stream::new(d, format!("body{}", id).into_bytes())));
-                    } else {
-                        doc.objects.insert((*id, g), Object::Dictionary(d));
-                    }
-                }
-                doc.max_id = s.iter().max().unwrap() + extra;
-                doc.trailer.set("Root", Object::Reference((s[0], 0)));
-                docs.push((doc, format!("ids={:?} gens={} max_id+{}", s, gp, extra)));
-            }
-        }
-    }
-    // versions x binary marks
-    let versions = ["1.4", "2.0", "", "1.7 extra words", "1.\u{e9}\u{4e2d}", "1.5%x", " 1.3"];
-    let marks: [&[u8]; 5] = [&[0xBB, 0xAD, 0xC0, 0xDE], &[], &[0x80], &[0xff; 8], &[0xe2, 0xe3, 0xcf, 0xd3]];
-    for v in versions {
-        for m in marks {
-            let mut doc = Document::with_version(v);
-            doc.binary_mark = m.to_vec();
-            doc.objects.insert((1, 0), Object::Integer(1));
-            doc.max_id = 1;
-            docs.push((doc, format!("version={:?} mark={:?}", v, m)));
-        }
-    }
-    // trailers: Root/Info/ID and arbitrary extra keys with values of every kind
-    for (i, v) in atoms().into_iter().enumerate() {
-        let mut doc = Document::with_version("1.6");
-        doc.objects.insert((1, 0), Object::Dictionary(rt::dict(vec![(b"Type", Object::Name(b"Catalog".to_vec()))])));
-        doc.objects.insert((2, 0), Object::Dictionary(rt::dict(vec![(b"Title", Object::string_literal("t"))])));
-        doc.max_id = 2;
-        doc.trailer.set("Root", Object::Reference((1, 0)));
-        doc.trailer.set("Info", Object::Reference((2, 0)));
-        doc.trailer.set(
-            "ID",
-            Object::Array(vec![
-                Object::String(vec![0x00, 0x28, 0x29, 0x5c, 0xff], StringFormat::Hexadecimal),
-                Object::String(b")(\\\r\n".to_vec(), StringFormat::Literal),
-            ]),
-        );
-        doc.trailer.set(format!("X{}", i).into_bytes(), v.clone());
-        doc.trailer.set(b"K #(".to_vec(), Object::Array(vec![v]));
-        docs.push((doc, format!("trailer extra atom {}", i)));
-    }
-    // empty document, and a document with only max_id
-    docs.push((Document::with_version("1.4"), "empty".into()));
-    let mut d = Document::with_version("1.4");
-    d.max_id = 9;
-    docs.push((d, "no objects, max_id 9".into()));
+    let docs = docgen::file_level_docs();
     run.sample(json!({"part": "file_level", "doc": doc_to_json(&docs[37].0), "label": docs[37].1}));
     run.nontrivial(docs.len() as u64);
     run.add("file_level_docs", docs.len() as u64);
@@ -630,41 +346,8 @@ fn file_level(run: &Run) {
 // ---------------------------------------------------------------------------------------------
 // part 6: closure under repeated save/load cycles (explicit-state, both transitions)
 
-fn start_docs() -> Vec<Document> {
-    let mut out = vec![];
-    let a = atoms();
-    let t = gen_trees(3, 3);
-    for k in 0..12usize {
-        let mut doc = Document::with_version(["1.4", "1.7", "2.0"][k % 3]);
-        let mut id = 1u32;
-        for (j, x) in a.iter().enumerate() {
-            if (j + k) % 3 == 0 {
-                doc.objects.insert((id, (k % 2) as u16), x.clone());
-                id += 1 + (k as u32 % 3);
-            }
-        }
-        for j in 0..6 {
-            let tr = &t[(k * 37 + j * 11) % t.len()];
-            doc.objects.insert((id, 0), tr.clone());
-            id += 1;
-            if let Object::Dictionary(d) = tr {
-                doc.objects.insert((id, 0), Object::Stream(Stream::new(d.clone(), vec![k as u8, b'\r', b'\n', 0xff, j as u8])));
-                id += 2;
-            }
-        }
-        doc.max_id = id + (k as u32 % 2) * 5;
-        doc.trailer.set("Root", Object::Reference((1, 0)));
-        if k % 2 == 0 {
-            doc.trailer.set("Info", Object::Reference((2, 0)));
-            doc.trailer.set("ID", Object::Array(vec![Object::string_literal("(a)"), Object::string_literal("b\\")]));
-        }
-        out.push(doc);
-    }
-    out
-}
-
 fn closure(run: &Run, depth: usize) {
-    let starts = start_docs();
+    let starts = docgen::start_docs();
     let states_seen = Mutex::new(0u64);
     util::par_for(starts.len(), |si| {
         let start = &starts[si];
